@@ -73,7 +73,7 @@ PROPS = {
                      "emptyW (proved), every live automaton re-read after every step; non-trivial = some product or witness "
                      "non-empty",
                 assumptions=PROOF_ASSUME),
-    "C16": dict(level="proof", kinds=[("lts", 24), ("binrel", 1), ("ltsutil", 1)], n=dict(quick=4320, thorough=200000, search=4000),
+    "C16": dict(level="proof", kinds=[("lts", 24), ("ltsc", 3), ("binrel", 1), ("ltsutil", 1)], n=dict(quick=4320, thorough=200000, search=4000),
                 rule="LTSs with 1–8 states (12 %: 13–30 states so that the engine's counter rows, block splits and remove "
                      "lists are exercised), 1–4 labels, parallel edges, isolated states, labels with one edge; random "
                      "partitions into non-empty blocks with random preorders (reflexive-transitive closures) on the blocks; all "
@@ -139,7 +139,7 @@ PROPS = {
                        ("nfah_incl", 4), ("nfah_ops", 4), ("nfah_hist", 2), ("tah_store", 3), ("tah_hist", 4), ("lts", 4),
                        ("mth", 3), ("mthrc", 2), ("bddincl", 5), ("bddinclall", 1), ("bddh", 5), ("bddtd", 1), ("parse", 8), ("parse2", 1),
                        ("meta", 1), ("apisweep", 3), ("binrel", 2), ("achain", 1), ("ordvec", 1), ("cacheh", 1), ("glue", 1), ("ltsutil", 1),
-                       ("bddsim", 1), ("mapsx", 1), ("nfah_inclsim", 1)],
+                       ("bddsim", 1), ("mapsx", 1), ("nfah_inclsim", 1), ("ltsc", 1), ("ownalpha", 1)],
                 n=dict(quick=6000, thorough=150000, search=6000),
                 rule="a sample of EVERY workload of C01–C19 (all case kinds, fresh seeds) executed in-process on the library built "
                      "with AddressSanitizer + UndefinedBehaviorSanitizer (-fno-sanitize-recover) and "
